@@ -752,17 +752,24 @@ def check_lazy_values(prog, run, classes, scope, floor):
                         "method that assigns something E is computed from (attributes E reads, directly or through a property of the "
                         "class): the setter of the source resets what was derived from it, or the derived value keeps describing the "
                         "members the object had before" % scope, floor)
-    for c in classes:
-        def self_attrs(node, ctx):
-            return {x.attr for x in ast.walk(node) if isinstance(x, ast.Attribute) and isinstance(x.ctx, ctx) and isinstance(x.value, ast.Name) and x.value.id == "self"}
 
-        def is_property(m):
-            return any(_txt(d) in ("property", "lazy", "cached_property") for d in getattr(m.node, "decorator_list", []))
+    def self_attrs(node, ctx):
+        return {x.attr for x in ast.walk(node) if isinstance(x, ast.Attribute) and isinstance(x.ctx, ctx) and isinstance(x.value, ast.Name) and x.value.id == "self"}
+    for c in classes:
+        # every def of the class body (a property's getter and setter share a name: the method table keeps one of them)
+        defs = []
+        for k in [c] + [b for b in c.mro()[1:] if hasattr(b, "node")]:
+            for st in k.node.body:
+                if isinstance(st, (ast.FunctionDef, ast.AsyncFunctionDef)):
+                    defs.append((k, st))
+        own_defs = [(k, d) for k, d in defs if k is c]
+        getters = {}
+        for k, d in defs:
+            if any(_txt(x) in ("property", "lazy", "cached_property") for x in d.decorator_list):
+                getters.setdefault(d.name, d)
         caches = {}
-        for m in c.methods.values():
-            if isinstance(m.node, ast.Lambda):
-                continue
-            for n in own_walk(m.node):
+        for k, d in own_defs:
+            for n in ast.walk(d):
                 if isinstance(n, ast.If) and isinstance(n.test, ast.Compare) and len(n.test.ops) == 1 and isinstance(n.test.ops[0], ast.Is) \
                         and isinstance(n.test.comparators[0], ast.Constant) and n.test.comparators[0].value is None \
                         and isinstance(n.test.left, ast.Attribute) and isinstance(n.test.left.value, ast.Name) and n.test.left.value.id == "self":
@@ -773,22 +780,22 @@ def check_lazy_values(prog, run, classes, scope, floor):
                             deps = set(self_attrs(st.value, ast.Load))
                             for _ in range(2):
                                 for a in sorted(deps):
-                                    pm = c.find_method(a)
-                                    if pm is not None and is_property(pm) and not isinstance(pm.node, ast.Lambda):
-                                        deps |= self_attrs(pm.node, ast.Load)
+                                    if a in getters:
+                                        deps |= self_attrs(getters[a], ast.Load)
                             deps.discard(cname)
-                            caches[cname] = (m, deps)
+                            caches[cname] = (d, deps)
         for cname, (m, deps) in sorted(caches.items()):
             r.instance("%s.%s computed from %s" % (c.name, cname, sorted(deps)))
-            for w in c.methods.values():
-                if w.name == "__init__" or isinstance(w.node, ast.Lambda) or w is m:
+            for k, w in defs:
+                if w.name == "__init__" or w is m:
                     continue
-                stored = self_attrs(w.node, ast.Store)
+                stored = self_attrs(w, ast.Store)
                 hit = sorted(stored & deps)
                 if hit and cname not in stored:
-                    run.report(r, "%s:%s.%s:derived-value-not-reset(%s)" % (c.module.name, c.name, w.name, cname), w.where(),
-                               "%s.%s assigns %s, which %s.%s (in %s) is computed from, without assigning self.%s again: the remembered "
-                               "value keeps describing the old %s" % (c.name, w.name, ", ".join("self." + h for h in hit), "self", cname, m.name, cname, hit[0]))
+                    run.report(r, "%s:%s.%s:derived-value-not-reset(%s)" % (c.module.name, c.name, w.name, cname),
+                               "%s:%d" % (k.module.relpath, w.lineno),
+                               "%s.%s assigns %s, which self.%s (computed in %s) is derived from, without assigning self.%s again: the "
+                               "remembered value keeps describing the old %s" % (c.name, w.name, ", ".join("self." + h for h in hit), cname, m.name, cname, hit[0]))
 
 
 def run_bundle(prog, run, files, floors=None):
